@@ -137,6 +137,21 @@ PROPS = {
         "correspondence": "real Solver::solve (SLG, recursive; shared and fresh instances) vs Sem.evalGoal on horn_env(program)",
         "explanation": "translation validation of solver answers by a certified checker",
     },
+    "C07": {
+        "level": "translation_validation",
+        "rule": "150 generated coherent programs (one impl per trait and self-type constructor): 1-2 traits with an associated type (a quarter with a trait parameter), impls on "
+                "nullary and unary structs whose values mention impl parameters, structs and scalars, some with where-clauses; 8 goals each: exists<U>{Normalize(<X as Tr>::A -> U)}, "
+                "closed X: Tr<A = Y>, exists<U>{X: Tr<A = U>}, forall<X>{exists<U>{Normalize(..)}}; both solvers, fresh instances; closed goals judged by judge-ground, goals with unknowns "
+                "by the C01 contract (judge-answer) on the Normalize/AliasEq clauses read off chalk's lowered Program; non-trivial = every judged answer",
+        "technique": "certified checker (Stage-A evaluator + answer contract) on the Normalize/AliasEq Horn encoding + Lean theorems on that encoding (normalize_unique, aliasEq_sols) and on the exact priority rule (withPriorities_prefers_high)",
+        "claim": "A Unique answer to a normalization goal is certified to be a solution and no enumerated other type is one; No-solution is refuted when an impl applies; closed equality goals are "
+                 "decided against the least fixed point (never another type). normalize_unique: in a coherent program two normal forms of one projection coincide; aliasEq_sols: an AliasEq fact "
+                 "is the normalized value or the placeholder type; with equal inputs the high-priority impl solution is the one returned.",
+        "note": "Trusted: Lean kernel, horn.rs encoding, Stage-A theorems, Aggregate model (C17). Fragment F2: non-generic associated types without bounds; values without projections "
+                "(values mentioning other projections are not generated yet); completeness half bounded by the enumeration (depth 2).",
+        "correspondence": "real Solver::solve (SLG, recursive) vs Sem contract on horn_assoc(program)",
+        "explanation": "translation validation of solver answers by a certified checker",
+    },
     "C13": {
         "level": "proof",
         "rule": "100 generated Horn-fragment programs (no growing-type impls: searches stay within the size limits) x 5 goals (2 closed, 3 with unknowns) x 6 (thorough 24) "
